@@ -82,13 +82,21 @@ def ser_impl(F, ty):
     return cands[0] if cands else None
 
 
-def with_impl(F, wrapper_ty):
-    """Serialize impl of a __SerializeWith wrapper type"""
+def with_impl(F, wrapper_ty, value_expr=None):
+    """Serialize impl of a `__SerializeWith` wrapper. serde derives one wrapper type per `serialize_with` field, all
+    called `__SerializeWith` and declared in different blocks of the same function: the wrapper a given field uses
+    is read from the aggregate built for the call (`value_expr`), whose ADT path the driver makes unique."""
+    adt = None
+    if value_expr:
+        m = re.match(r"^(.*__SerializeWith(?:#\d+)?)::__SerializeWith\{", value_expr)
+        adt = m.group(1) if m else None
+    cands = [f for n, f in F.fns.items() if re.search(r"Serialize>::serialize(#\d+)?$", n) and "__SerializeWith" in n]
+    if adt is not None:
+        hit = [f for f in cands if f.j.get("impl_self_adt") == adt]
+        return hit[0] if len(hit) == 1 else None
     key = wrapper_ty.split("<")[0]
-    for n, f in F.fns.items():
-        if n.startswith("<" + key) and n.endswith("Serialize>::serialize"):
-            return f
-    return None
+    hit = [f for f in cands if f.name.startswith("<" + key)]
+    return hit[0] if len(hit) == 1 else None
 
 
 def rule_views(run, F, cfg):
@@ -116,7 +124,7 @@ def rule_views(run, F, cfg):
             n_fields += 1
             inst = f"{ty.split('::')[-1]}.{fname.strip(chr(34))}"
             if "__SerializeWith" in T:
-                w = with_impl(F, T)
+                w = with_impl(F, T, f.expr_operand(t["args"][2]) if len(t["args"]) > 2 else None)
                 callee = None
                 if w is not None:
                     locs = [(wb, wt) for wb, wt in w.calls() if wt.get("local")]
